@@ -40,7 +40,9 @@ func (v *Vue) evaluate(ctx VueContext, nodes []*html.Node, depth int) ([]*html.N
 			tag := node.Data
 
 			// Check for v-once early - skip if already rendered
-			if helpers.HasAttr(node, "v-once") {
+			// (An element that also carries v-for is tested per iteration, on the
+			// clones evalFor makes of it: marking the id here would skip them all.)
+			if helpers.HasAttr(node, "v-once") && !helpers.HasAttr(node, "v-for") {
 				vSeenID := helpers.GetAttr(node, "v-once-id")
 				if ctx.seen[vSeenID] {
 					// This v-once element has already been rendered, skip it
